@@ -160,4 +160,30 @@ if __name__ == '__main__':
     elif sys.argv[1] == 'run':
         args = [a for a in sys.argv[2:] if not a.startswith('--')]
         tier = 'thorough' if '--thorough' in sys.argv else 'quick'
-        run(args, tier)
+        rows = run(args, tier)
+        if '--update' in sys.argv and args:
+            # re-evaluate the named changes and replace their rows in seeded/RESULTS.md (the other rows stay as the
+            # last full run wrote them); a note at the end says which rows were refreshed
+            sd = os.path.join(VERIF, 'seeded')
+            path = os.path.join(sd, 'RESULTS.md')
+            lines = open(path).read().split('\n')
+            new = {}
+            for r in rows:
+                meta = {}
+                try:
+                    meta = json.load(open(os.path.join(sd, r[0], 'meta.json')))
+                except Exception:
+                    pass
+                res = r[2] + (' (correspondence / proof tie only: no-failing-input-found)' if len(r) > 3 and 'no-failing-input-found' in r[3] else '')
+                new[r[0]] = '| %s | %s | %s | %s | %s |' % (r[0], r[1], res, str(meta.get('summary', '')).replace('|', '/').replace('\n', ' '),
+                                                       str(meta.get('needs', '')).replace('|', '/').replace('\n', ' '))
+            out = []
+            for l in lines:
+                m = re.match(r'\| (C\d\d-m\d+) \|', l)
+                out.append(new.pop(m.group(1)) if m and m.group(1) in new else l)
+            out = [l for l in out if not l.startswith('(rows refreshed')]
+            while out and out[-1] == '':
+                out.pop()
+            out.append('')
+            out.append('(rows refreshed by `seeded.py run --update` after later generator changes: %s)' % ', '.join(sorted(r[0] for r in rows)))
+            open(path, 'w').write('\n'.join(out) + '\n')
